@@ -78,6 +78,7 @@ type Result struct {
 	Preemptions  int
 	Stalls       int
 	LockWaitEnd  []string // goroutines still waiting for a lock (or a sync.Once) when the run ended
+	LockWaitFor  []time.Duration // ... and for how long (simulated time)
 	Marks        int // network events observed by goroutines under the scheduler
 	Lags         int // times the schedule generator let such a goroutine fall behind
 	StallTotal   time.Duration
@@ -893,7 +894,7 @@ func finalize() Result {
 	}
 	sort.Slice(res.SitePairs, func(i, j int) bool { return res.SitePairs[i] < res.SitePairs[j] })
 	res.Trace = traceBuf
-	res.LockWaitEnd = nil
+	res.LockWaitEnd, res.LockWaitFor = nil, nil
 	{
 		var lw []*G
 		for _, g := range gs {
@@ -904,6 +905,7 @@ func finalize() Result {
 		sort.Slice(lw, func(i, j int) bool { return lw[i].id < lw[j].id })
 		for _, g := range lw {
 			res.LockWaitEnd = append(res.LockWaitEnd, fmt.Sprintf("%s at %s", g.id, SiteName(g.site)))
+			res.LockWaitFor = append(res.LockWaitFor, time.Since(g.waitAt))
 		}
 	}
 	if res.Status != "ok" {
